@@ -1,0 +1,11 @@
+//go:build verif
+
+package control
+
+import "pault.ag/go/debian/internal"
+
+// SetCopyHook installs a failpoint into the file copies done by DSC.Copy and
+// Changes.Copy. Verification builds only.
+func SetCopyHook(hook func(stage, source, dest string) error) {
+	internal.CopyHook = hook
+}
